@@ -209,7 +209,10 @@ def configurations(rng, n):
     return out
 
 
-NAMES = ["a.txt", "b.txt", "dir/c.txt", "dir/d.txt", "dir/sub/e.txt", "x y.txt", "dir2/a.txt", "f", "dir/sub/f", "ü.txt"]
+# small universe so that operations collide; "dir2/sub" and "n" are FILES named like directories elsewhere
+# ("dir/sub/...", "<moved dir>/n/o.txt"): copying both trees into one destination makes one name a file and a directory
+NAMES = ["a.txt", "b.txt", "dir/c.txt", "dir/d.txt", "dir/sub/e.txt", "x y.txt", "dir2/a.txt", "f", "dir/sub/f", "ü.txt",
+         "dir2/sub", "n"]
 
 
 def obj_id(cfg, k):
